@@ -11,7 +11,7 @@ import re
 from .. import common, astq, witness
 from .c12 import flatten_shift
 
-FUNCS = "decode_dispatch_data|encode_dispatch_data|augment_methods|fast_perfect_hash<"
+FUNCS = "decode_dispatch_data|encode_dispatch_data|augment_methods|fast_perfect_hash<|::install_gv|::build_dispatch_tables|::install_global_tables"
 
 
 def mentions(n, name):
@@ -611,6 +611,42 @@ def publish_rules(run, rule, dec, ast):
                           "and the hash search treats the bucket that already holds this id as a collision (%s): no multiplier is ever accepted and decoding ends in hash_search_error" % {k: sorted(v) for k, v in t.items()}, (dec["file"], pubs[0]["l"]))
 
 
+def parity_rules(run, rule, dec, ast):
+    """decoding replaces update: every kind of state update installs through the registration records must be installed by the decoder
+    too - the classes' static v-table pointers, the methods' slots and strides, the definitions' `next` pointers."""
+    KINDS = {"static_vptr": "the classes' static v-table pointers", "slots_strides_ptr": "the methods' slots and strides", "next": "the definitions' next pointers"}
+
+    def kinds_written(fn):
+        out = {}
+        for n in astq.walk(fn["body"]):
+            if n.get("k") == "BinaryOperator" and n.get("op") == "=":
+                l = astq.strip(n["c"][0])
+                if l is not None and l.get("k") == "UnaryOperator" and l.get("op") == "*":
+                    for x in astq.walk(l):
+                        if x.get("k") == "MemberExpr" and x.get("member") in ("static_vptr", "next"):
+                            out.setdefault(x["member"], n)
+                if l is not None and l.get("k") in ("ArraySubscriptExpr", "CXXOperatorCallExpr") and any(x.get("k") == "MemberExpr" and x.get("member") == "slots_strides_ptr" for x in astq.walk(l)):
+                    out.setdefault("slots_strides_ptr", n)
+            if n.get("k") == "CallExpr" and re.match(r"^std::(copy|copy_n)<", n.get("callee") or "") and any(x.get("k") == "MemberExpr" and x.get("member") == "slots_strides_ptr" for x in astq.walk(n)):
+                out.setdefault("slots_strides_ptr", n)
+        return out
+    upd = {}
+    for f in ast.funcs:
+        if f.get("body") and re.search(r"compiler<.*>::(install_gv|build_dispatch_tables|install_global_tables)$", f["name"]):
+            for k, n in kinds_written(f).items():
+                upd.setdefault(k, (f, n))
+    if "static_vptr" not in upd or "slots_strides_ptr" not in upd:
+        run.broken.append("update's installation of static v-table pointers / slots and strides not found in the unit (%s)" % sorted(upd))
+        return
+    dk = kinds_written(dec)
+    for k in sorted(upd):
+        ok = k in dk
+        run.instance(rule, "decode_dispatch_data installs %s, as update does (%s)" % (KINDS[k], upd[k][0]["name"].rsplit("::", 1)[1]), (dec["file"], dk[k]["l"] if ok else dec["line"]), ok=ok)
+        if not ok:
+            run.violation(rule, "decode_dispatch_data|parity|%s" % k, "update installs %s (%s, line %s) but decode_dispatch_data never does: after decoding, that state is whatever static initialisation left" % (
+                KINDS[k], upd[k][0]["name"].rsplit("::", 1)[1], upd[k][1]["l"]), (dec["file"], dec["line"]))
+
+
 def scratch_rules(run, rule, f):
     """decoder scratch arrays (alloca): an array indexed by a method's position in the catalog has one entry per method, an array
     indexed by a multi-method's rank one per multi-method; an extent counted over fewer elements than the index ranges over is
@@ -725,6 +761,7 @@ def check(run):
             decoder_rules(run, r1, r2, f, augs[0])
             scratch_rules(run, r1, f)
             publish_rules(run, r2, f, ast)
+            parity_rules(run, r2, f, ast)
     run.assumptions += ["compiler invariants slots.size() == arity and strides.size() == arity - 1 (augment_methods / build_dispatch_tables) are taken as given",
                         "headroom (in-place decoding never overtakes unread input) depends on run-time sizes: not decided"]
     return run.finish(level="other", explanation="AST rules over the instantiated encoder, decoder and augment_methods: contributions to each declared extent as affine "
